@@ -231,6 +231,112 @@ pub fn run(ctx: &mut Ctx) {
             ctx.rep.sample(describe(s, *nch, used).set("file_bytes", J::i(files[i].len() as u64)));
         }
     }
+    #[cfg(png_verif)]
+    component_ties(ctx);
+}
+
+/// component ties through hooks: `ZlibStream` window arithmetic and `UnfilteringBuffer` against their Lean models
+#[cfg(png_verif)]
+fn component_ties(ctx: &mut Ctx) {
+    use png::verif_hooks::{UnfBuf, Zlib};
+    let mut rng = ctx.rng.fork(77);
+    // ZlibStream: feed a real stream in random pieces; k = bytes handed to image_data per call
+    for run in 0..ctx.n(6, 40) {
+        let total = rng.usize(200_000, 1_500_000);
+        let period = rng.usize(1, 30_000);
+        let pat = rng.bytes(period);
+        let data: Vec<u8> = (0..total).map(|i| pat[i % period]).collect();
+        let z = zlib_stream(&data, &Deflater::Level(1 + (run as u32 % 9)));
+        let max_total = match run % 3 { 0 => None, 1 => Some(total), _ => Some(total * 2) };
+        let mut zs = Zlib::new();
+        if let Some(m) = max_total { zs.set_max_total_output(m); }
+        let mut image_data: Vec<u8> = vec![];
+        let mut ks = vec![];
+        let mut obs = vec![];
+        let mut pos = 0usize;
+        let mut ok = true;
+        while pos < z.len() && ks.len() < 4000 {
+            let span = *rng.pick(&[10usize, 1000, 100_000]);
+            let n = (1 + rng.usize(0, span)).min(z.len() - pos);
+            let before = image_data.len();
+            match guarded(|| zs.decompress(&z[pos..pos + n], &mut image_data)) {
+                Ok(Ok(c)) => {
+                    pos += c.max(if c == 0 && image_data.len() == before { 1 } else { 0 }).min(n);
+                    if c == 0 && image_data.len() == before { ok = false; break; }
+                }
+                _ => { ok = false; break; }
+            }
+            ks.push(image_data.len() - before);
+            let (len, out_pos, read_pos, _) = zs.observe();
+            obs.push(format!("{}:{}:{}", len, out_pos, read_pos));
+            if image_data.len() > (1 << 22) { image_data.clear(); }
+        }
+        ctx.rep.eval(true, fnv64(&z) ^ run as u64);
+        ctx.rep.count("component", "ZlibStream");
+        if !ok {
+            ctx.rep.violation("oracle", "zlibstream/stalled-or-failed", "ZlibStream::decompress failed or made no progress on a valid stream", J::obj().set("kind", J::s("zw")).set("run", J::i(run as u64)));
+            continue;
+        }
+        let line = format!("cmp zw {} {}", max_total.map(|m| m.to_string()).unwrap_or("max".into()), ks.iter().map(|k| k.to_string()).collect::<Vec<_>>().join(","));
+        let ans = model::ask_one(&[line.clone()]);
+        ctx.rep.model_compared += 1;
+        let want = obs.join(" ");
+        if ans[0] != want {
+            let a: Vec<&str> = ans[0].split(' ').collect();
+            let at = a.iter().zip(&obs).position(|(x, y)| x != y).unwrap_or(0);
+            ctx.rep.violation("model", "zlibstream/window", &format!("ZlibStream (out_buffer.len, out_pos, read_pos) after call {}: implementation {}, model {}", at, obs.get(at).cloned().unwrap_or_default(), a.get(at).unwrap_or(&"?")),
+                J::obj().set("kind", J::s("zw")).set("line", J::s(&line[..line.len().min(20000)])));
+        }
+    }
+    // UnfilteringBuffer
+    for run in 0..ctx.n(60, 600) {
+        let bpp = *rng.pick(&[1usize, 2, 3, 4, 6, 8]);
+        let rowlen = 1 + bpp * rng.usize(1, 40);
+        let rows = rng.usize(1, 12);
+        let mut stream = vec![];
+        for _ in 0..rows {
+            stream.push(if rng.chance(1, 30) { rng.range(5, 255) as u8 } else { rng.below(5) as u8 });
+            stream.extend(rng.class_bytes(rowlen - 1));
+        }
+        let mut ub = UnfBuf::new();
+        let mut ops: Vec<String> = vec![];
+        let mut obs: Vec<String> = vec![];
+        let show = |u: &UnfBuf| { let (d, p, c) = u.observe(); format!("{}:{}:{}:{:016x}", p, c, d.len(), fnv64(&d)) };
+        ub.reset_prev_row();
+        ops.push("r".into());
+        obs.push(show(&ub));
+        let mut pos = 0usize;
+        let mut dead = false;
+        while (pos < stream.len() || ub.curr_row_len() >= rowlen) && !dead && ops.len() < 400 {
+            if ub.curr_row_len() >= rowlen && (pos >= stream.len() || rng.bool()) {
+                ops.push("u".into());
+                match guarded(|| ub.unfilter_curr_row(rowlen, bpp as u8)) {
+                    Ok(Ok(())) => obs.push(show(&ub)),
+                    Ok(Err(_)) => {
+                        let (d, _, c) = ub.observe();
+                        obs.push(format!("err{}", d[c]));
+                        dead = true; // the decoder stops at an unknown filter byte
+                    }
+                    Err(_) => { obs.push("panic".into()); dead = true; }
+                }
+            } else if pos < stream.len() {
+                let n = (1 + rng.usize(0, 2 * rowlen)).min(stream.len() - pos);
+                ub.append(&stream[pos..pos + n]);
+                ops.push(format!("a{}", hex(&stream[pos..pos + n])));
+                obs.push(show(&ub));
+                pos += n;
+            }
+        }
+        ctx.rep.eval(true, fnv64(&stream) ^ run as u64);
+        ctx.rep.count("component", "UnfilteringBuffer");
+        let line = format!("cmp ub {} {} {}", rowlen, bpp, ops.join(","));
+        let ans = model::ask_one(&[line.clone()]);
+        ctx.rep.model_compared += 1;
+        if ans[0] != obs.join(" ") {
+            ctx.rep.violation("model", "unfilteringbuffer", &format!("UnfilteringBuffer states differ: implementation `{}` model `{}`", &obs.join(" ")[..obs.join(" ").len().min(300)], &ans[0][..ans[0].len().min(300)]),
+                J::obj().set("kind", J::s("ub")).set("line", J::s(&line)));
+        }
+    }
 }
 
 pub fn replay(ctx: &mut Ctx, case: &J) {
